@@ -6,6 +6,7 @@ THEOREMS = [NS + t for t in """C08_consts C08_einval_unchanged C08_einval_cases 
 C08_sets_object C08_sets_exact C08_survivors C08_survivors_sets C08_removal_rule C08_pu_rule C08_numa_rule C08_root_kept C08_wf_sets C08_specials C08_specials_local C08_merge_decision C08_merge_exact C08_merge_preserves_setsok C08_wf_sets_whole C08_sets_exact_whole C08_render_links C08_render_no_children C08_render_levels C08_typing_preserved C08_restrict_links C08_restrict_no_children C08_restrict_levels C08_repeat C08_repeat_exact
 C08_reorder_without_removal_reachable
 C08_restrict_preserves_typing C08_repeat_preserves_typing C08_wf_implies_okT C08_wf_restrict_typing
+C08_pus_exact C08_merge_keeps_nonnormal C08_numa_survive C08_numas_exact_bynodeset C08_pu_survive_bynodeset
 C08_side_distances C08_side_distances_types_aligned C08_side_distances_repeat C08_side_cpukinds C08_side_memattrs""".split()]
 CHECK_MODULES = ["Hw.Props.C08"]
 TRUSTED = ["hwloc_bitmap_not / andnot / intersects / isincluded / iszero / set / compare_first enter the model through their "
